@@ -280,7 +280,8 @@ func buildOperator(expr parser.Expr, storage *engstore.SelectorPool, opts *query
 		return exchange.NewCoalesce(model.NewVectorPool(stepsBatch), operators...), nil
 
 	case *logicalplan.RemoteExecution:
-		qry, err := e.Engine.NewRangeQuery(&promql.QueryOpts{}, e.Query, opts.Start, opts.End, opts.Step)
+		// The remote engine evaluates with the lookback delta of this query.
+		qry, err := e.Engine.NewRangeQuery(&promql.QueryOpts{LookbackDelta: opts.LookbackDelta}, e.Query, opts.Start, opts.End, opts.Step)
 		if err != nil {
 			return nil, err
 		}
